@@ -147,8 +147,11 @@ impl Acc {
         match self.viol.get_mut(&key) {
             Some(e) => {
                 e.3 += 1;
-                if size < e.2 {
-                    *e = (desc, case.to_json(), size, e.3);
+                if size <= e.2 {
+                    let j = case.to_json();
+                    if better((size, &j), (e.2, &e.1)) {
+                        *e = (desc, j, size, e.3);
+                    }
                 }
             }
             None => {
@@ -168,7 +171,7 @@ impl Acc {
             match self.viol.get_mut(&k) {
                 Some(e) => {
                     let total = e.3 + n;
-                    if s < e.2 {
+                    if better((s, &r), (e.2, &e.1)) {
                         *e = (d, r, s, total);
                     } else {
                         e.3 = total;
@@ -180,6 +183,11 @@ impl Acc {
             }
         }
     }
+}
+
+/// Deterministic choice of the recorded example: the smallest input, ties by text.
+fn better(new: (usize, &Value), old: (usize, &Value)) -> bool {
+    new.0 < old.0 || (new.0 == old.0 && new.1.to_string() < old.1.to_string())
 }
 
 // ---------------------------------------------------------------- running the subject
@@ -858,64 +866,53 @@ fn fingerprint(b: &[u8]) -> (u64, u64) {
     (h1.finish(), h2.finish())
 }
 
-/// Run `produce` on this thread; it emits inputs, duplicates are dropped, the
-/// distinct ones are handed in batches to `threads` workers running `work`.
-/// Returns the merged accumulators and the number of distinct inputs.
-fn stream<P, W>(threads: usize, produce: P, work: W) -> (Acc, u64)
+/// `produce` emits complete messages. For each of them the message itself, the
+/// message followed by each trailer and every proper prefix are inputs;
+/// duplicates are dropped (sharded fingerprint set), every distinct input is
+/// handed to `work` exactly once. Messages are dealt round-robin to `threads`
+/// workers. Returns the merged accumulators and the number of distinct inputs.
+fn stream<P, W>(threads: usize, trailers: &[&[u8]], produce: P, work: W) -> (Acc, u64)
 where
     P: FnOnce(&mut dyn FnMut(Vec<u8>)),
     W: Fn(&[u8], &mut Acc) + Sync,
 {
-    let (tx, rx) = std::sync::mpsc::sync_channel::<Vec<Vec<u8>>>(64);
-    let rx = Mutex::new(rx);
+    let mut fulls: Vec<Vec<u8>> = Vec::new();
+    produce(&mut |b| fulls.push(b));
+    const SHARDS: usize = 256;
+    let seen: Vec<Mutex<HashSet<(u64, u64)>>> = (0..SHARDS).map(|_| Mutex::new(HashSet::new())).collect();
     let total = Mutex::new(Acc::default());
-    let mut distinct = 0u64;
+    let threads = threads.max(1);
     std::thread::scope(|s| {
-        for _ in 0..threads.max(1) {
-            let (rx, total, work) = (&rx, &total, &work);
+        for t in 0..threads {
+            let (fulls, seen, total, work) = (&fulls, &seen, &total, &work);
             s.spawn(move || {
                 let mut acc = Acc::default();
-                loop {
-                    let batch = { rx.lock().unwrap().recv() };
-                    let Ok(batch) = batch else { break };
-                    for input in &batch {
-                        work(input, &mut acc);
+                let mut buf: Vec<u8> = Vec::new();
+                let mut one = |input: &[u8], acc: &mut Acc| {
+                    let fp = fingerprint(input);
+                    let fresh = seen[(fp.0 as usize) % SHARDS].lock().unwrap().insert(fp);
+                    if fresh {
+                        work(input, acc);
+                    }
+                };
+                for full in fulls.iter().skip(t).step_by(threads) {
+                    one(full, &mut acc);
+                    for tr in trailers {
+                        buf.clear();
+                        buf.extend_from_slice(full);
+                        buf.extend_from_slice(tr);
+                        one(&buf, &mut acc);
+                    }
+                    for cut in 0..full.len() {
+                        one(&full[..cut], &mut acc);
                     }
                 }
                 total.lock().unwrap().merge(acc);
             });
         }
-        let mut seen: HashSet<(u64, u64)> = HashSet::new();
-        let mut batch: Vec<Vec<u8>> = Vec::with_capacity(256);
-        let mut emit = |b: Vec<u8>| {
-            if seen.insert(fingerprint(&b)) {
-                batch.push(b);
-                if batch.len() >= 256 {
-                    tx.send(std::mem::take(&mut batch)).expect("workers alive");
-                }
-            }
-        };
-        produce(&mut emit);
-        if !batch.is_empty() {
-            tx.send(batch).expect("workers alive");
-        }
-        distinct = seen.len() as u64;
-        drop(tx);
     });
+    let distinct = seen.iter().map(|m| m.lock().unwrap().len() as u64).sum();
     (total.into_inner().unwrap(), distinct)
-}
-
-/// Emit `full`, `full` + each trailer, and every proper prefix of `full`.
-fn emit_with_cuts(full: &[u8], trailers: &[&[u8]], emit: &mut dyn FnMut(Vec<u8>)) {
-    emit(full.to_vec());
-    for t in trailers {
-        let mut v = full.to_vec();
-        v.extend_from_slice(t);
-        emit(v);
-    }
-    for cut in 0..full.len() {
-        emit(full[..cut].to_vec());
-    }
 }
 
 pub fn run(args: &Args) -> Report {
@@ -948,15 +945,16 @@ pub fn run(args: &Args) -> Report {
     let mut distinct_total = 0u64;
 
     // ---- SOCKS5 requests
-    let fields = addr_fields(thorough);
-    let versions: &[u8] = if thorough { &[0, 4, 5, 6, 0xff] } else { &[4, 5, 6] };
-    let cmds: &[u8] = if thorough { &[0, 1, 2, 3, 4, 0xff] } else { &[1, 2, 3, 0xff] };
-    let rsvs: &[u8] = if thorough { &[0, 1, 0xff] } else { &[0, 1] };
-    let ports: &[u16] = if thorough { &[0, 1, 0x0050, 0x5000, 0xff00, 0xffff] } else { &[0, 1, 0xffff] };
+    let fields = addr_fields(true);
+    let versions: &[u8] = &[0, 4, 5, 6, 0xff];
+    let cmds: &[u8] = &[0, 1, 2, 3, 4, 0xff];
+    let rsvs: &[u8] = &[0, 1, 0xff];
+    let ports: &[u16] = &[0, 1, 0x0050, 0x5000, 0xff00, 0xffff];
     let trailers5: [&[u8]; 2] = [&[0x05], &[0x00, 0x05, 0x01, 0x00, 0x01]];
     let mut n_req5 = 0u64;
     let (acc, d) = stream(
         threads,
+        &trailers5,
         |emit| {
             for &ver in versions {
                 for &cmd in cmds {
@@ -965,9 +963,19 @@ pub fn run(args: &Args) -> Report {
                             for &port in ports {
                                 n_req5 += 1;
                                 let r = rf::build_request5(ver, cmd, rsv, *atyp, field, port);
-                                emit_with_cuts(&r, &trailers5, &mut *emit);
+                                emit(r);
                             }
                         }
+                    }
+                }
+            }
+            // every domain length 0..=255 (quantifier of the property)
+            let combos: &[(u8, u16)] = if thorough { &[(1, 0x0050), (1, 0xffff), (3, 0), (2, 0x0100)] } else { &[(1, 0x0050)] };
+            for &(cmd, port) in combos {
+                for len in 0..=255usize {
+                    for w in if thorough { 0..3u8 } else { 2..3u8 } {
+                        n_req5 += 1;
+                        emit(rf::build_request5(5, cmd, 0, 3, &Addr::Domain(fill(len, w)).field(), port));
                     }
                 }
             }
@@ -986,12 +994,13 @@ pub fn run(args: &Args) -> Report {
     // ---- SOCKS5 method negotiation
     let (acc, d) = stream(
         threads,
+        &[&[0x05][..], &[0x00, 0x02][..]],
         |emit| {
-            for n in [0usize, 1, 2, 255] {
+            for n in if thorough { (0..=255usize).collect::<Vec<_>>() } else { vec![0usize, 1, 2, 3, 127, 128, 254, 255] } {
                 for w in 0..3u8 {
                     let mut m = vec![n as u8];
                     m.extend(fill(n, w));
-                    emit_with_cuts(&m, &[&[0x05][..], &[0x00, 0x02][..]], &mut *emit);
+                    emit(m);
                 }
             }
         },
@@ -1007,32 +1016,30 @@ pub fn run(args: &Args) -> Report {
     rep.bounds.insert("auth_method_inputs_distinct".into(), json!(d));
 
     // ---- SOCKS4 / SOCKS4a requests
-    let cmds4: &[u8] = if thorough { &[0, 1, 2, 9, 0xff] } else { &[1, 2, 9] };
-    let ports4: &[u16] = if thorough { &[0, 1, 0x0050, 0x5000, 0xffff] } else { &[0, 0x0050, 0xffff] };
+    let cmds4: &[u8] = &[0, 1, 2, 9, 0xff];
+    let ports4: &[u16] = &[0, 1, 0x0050, 0x5000, 0xffff];
     let ips_plain: &[[u8; 4]] = &[[127, 0, 0, 1], [255, 255, 255, 255], [1, 0, 0, 0], [10, 0, 0, 255]];
     let ips_4a: &[[u8; 4]] = &[[0, 0, 0, 1], [0, 0, 0, 255]];
     let ips_out: &[[u8; 4]] = &[[0, 0, 0, 0], [0, 0, 1, 0], [0, 1, 0, 0], [0, 255, 255, 255], [0, 0, 1, 1]];
     let short_users: Vec<Vec<u8>> = vec![vec![], b"a".to_vec(), b"\xffroot".to_vec()];
     let short_domains: Vec<Vec<u8>> = vec![vec![], b"a".to_vec(), b"www.example.com".to_vec(), b"1.2.3.4".to_vec()];
-    let mut long_lens = vec![255usize];
-    if thorough {
-        long_lens.extend([254, 256, 300]);
-    }
+    let long_lens = [254usize, 255, 256, 300];
     let trailers4: [&[u8]; 2] = [&[0x61, 0x00, 0x62], &[0x00, 0x01]];
     let mut n_req4 = 0u64;
     let (acc, d) = stream(
         threads,
+        &trailers4,
         |emit| {
             let mut one = |cmd: u8, port: u16, ip: [u8; 4], user: &[u8], dom: Option<&[u8]>| {
                 n_req4 += 1;
                 let r = rf::build_request4(cmd, port, ip, user, dom);
-                emit_with_cuts(&r, &trailers4, &mut *emit);
+                emit(r);
             };
             for &cmd in cmds4 {
                 for &port in ports4 {
                     // long fields only with one (cmd, port) in the quick tier: the
                     // reader's treatment of the strings does not look at either
-                    let with_long = thorough || (cmd == 1 && port == 0x0050);
+                    let with_long = thorough || (cmd == 1 && port == 0x0050) || (cmd == 2 && port == 0xffff);
                     let mut users = short_users.clone();
                     let mut domains = short_domains.clone();
                     if with_long {
@@ -1057,6 +1064,17 @@ pub fn run(args: &Args) -> Report {
                     }
                 }
             }
+            // every string length up to a bound, for both NUL-terminated fields
+            let upto = if thorough { 64usize } else { 16 };
+            for len in 0..=upto {
+                for w in 0..2 {
+                    let sfill = fill_nonul(len, w);
+                    one(1, 0x0050, [127, 0, 0, 1], &sfill, None);
+                    one(1, 0x0050, [0, 0, 0, 1], &sfill, Some(b"a.b"));
+                    one(1, 0x0050, [0, 0, 0, 1], b"u", Some(&sfill));
+                    one(1, 0x0050, [0, 0, 0, 1], &sfill, Some(&sfill));
+                }
+            }
         },
         |input, acc| {
             for tr in TRANSPORTS {
@@ -1074,7 +1092,7 @@ pub fn run(args: &Args) -> Report {
     let mut writer_cases: Vec<Case> = Vec::new();
     let rports: &[u16] = &[0, 1, 0x1f90, 0xffff];
     let v4s = ipv4_corners();
-    let v6s = ipv6_corners(thorough);
+    let v6s = ipv6_corners(true);
     for rep_code in 0..=255u8 {
         for trickle in [false, true] {
             for &port in rports {
@@ -1093,7 +1111,7 @@ pub fn run(args: &Args) -> Report {
         }
     }
     // ---- UDP relay datagrams built by the subject
-    let pay_lens: &[usize] = if thorough { &[0, 1, 2, 3, 4, 255, 256, 1500, 65507] } else { &[0, 1, 2, 1500] };
+    let pay_lens: &[usize] = if thorough { &[0, 1, 2, 3, 4, 5, 16, 255, 256, 1472, 1500, 9000, 65507] } else { &[0, 1, 2, 3, 4, 255, 256, 1500, 65507] };
     let uports: &[u16] = &[0, 1, 0x0035, 0xffff];
     let mut build_cases: Vec<Case> = Vec::new();
     for &len in pay_lens {
@@ -1127,12 +1145,13 @@ pub fn run(args: &Args) -> Report {
     total.merge(merged.into_inner().unwrap());
 
     // ---- UDP relay datagrams parsed by the subject
-    let frags: &[u8] = if thorough { &[0, 1, 0x7f, 0xff] } else { &[0, 1] };
-    let ursvs: &[[u8; 2]] = if thorough { &[[0, 0], [0, 1], [0xff, 0]] } else { &[[0, 0], [0, 1]] };
+    let frags: &[u8] = &[0, 1, 0x7f, 0xff];
+    let ursvs: &[[u8; 2]] = &[[0, 0], [0, 1], [0xff, 0]];
     let upays: &[usize] = if thorough { &[0, 1, 2, 3, 5, 64] } else { &[0, 1, 2, 5] };
     let mut n_udp = 0u64;
     let (acc, d) = stream(
         threads,
+        &[],
         |emit| {
             for &rsv in ursvs {
                 for &frag in frags {
@@ -1141,9 +1160,18 @@ pub fn run(args: &Args) -> Report {
                             for &pl in upays {
                                 n_udp += 1;
                                 let dgram = rf::build_udp(rsv, frag, *atyp, field, port, &payload(pl));
-                                emit_with_cuts(&dgram, &[], &mut *emit);
+                                emit(dgram);
                             }
                         }
+                    }
+                }
+            }
+            // every domain length 0..=255
+            for len in 0..=255usize {
+                for w in if thorough { 0..3u8 } else { 2..3u8 } {
+                    for pl in [0usize, 2] {
+                        n_udp += 1;
+                        emit(rf::build_udp([0, 0], 0, 3, &Addr::Domain(fill(len, w)).field(), 0x0035, &payload(pl)));
                     }
                 }
             }
